@@ -421,6 +421,8 @@ def run(ctx, progs):
         from . import c08
         c08.r9_shrink_adopted(ctx, P, R="C01.R14")
         c08.r10_in_place_map_gate(ctx, P, R="C01.R15")
+        from . import c12 as _c12
+        _c12.r6_prepare_pads_layout(ctx, P, R="C01.R16")
     ctx.config = None
 
 
